@@ -228,6 +228,119 @@ pub unsafe extern "C" fn sched_getaffinity(pid: libc::pid_t, size: libc::size_t,
 }
 
 // ---------------------------------------------------------------------------------------------
+// S9: environment variables and the process id
+// ---------------------------------------------------------------------------------------------
+//
+// geo reads no environment variable and never asks for its process id (probes `env_var_reads`
+// and `pid_reads` are 0 on the unchanged tree).  A change that sizes its chunks by
+// `RAYON_NUM_THREADS`, switches a code path on a `GEO_*` variable or seeds something with the
+// pid would make results depend on the process, so `getenv` (what `std::env::var` calls) and
+// `getpid` are defined here.  On simulated threads during a run: the reference environment has
+// no variable set (except the `RUST_*` ones std itself reads, which are forwarded) and pid 4242;
+// a variant environment answers every queried name from the run's env seed - unset for a third
+// of the names, otherwise a value from a small dictionary of numbers / switches / locales, and
+// for `RAYON_NUM_THREADS` half of the time the pool size of the run - and a seeded pid.
+
+static ENVVAR_SEED: AtomicU64 = AtomicU64::new(0);
+static ENVVAR_WORKERS: AtomicUsize = AtomicUsize::new(1);
+static ENVVAR_READS: AtomicU64 = AtomicU64::new(0);
+static PID_READS: AtomicU64 = AtomicU64::new(0);
+
+pub fn set_envvar_seed(seed: u64, workers: usize) {
+    ENVVAR_SEED.store(seed, Ordering::SeqCst);
+    ENVVAR_WORKERS.store(workers.clamp(1, 16), Ordering::SeqCst);
+    ENVVAR_READS.store(0, Ordering::SeqCst);
+    PID_READS.store(0, Ordering::SeqCst);
+}
+
+pub fn envvar_stats() -> (u64, u64) {
+    (ENVVAR_READS.load(Ordering::SeqCst), PID_READS.load(Ordering::SeqCst))
+}
+
+const ENV_VALUES: &[&[u8]] = &[b"1\0", b"2\0", b"3\0", b"4\0", b"8\0", b"16\0", b"64\0", b"0\0", b"true\0", b"false\0", b"on\0", b"\0", b"C\0", b"de_DE.UTF-8\0", b"tr_TR.UTF-8\0", b"/tmp\0"];
+const ENV_NUMBERS: &[&[u8]] = &[b"1\0", b"2\0", b"3\0", b"4\0", b"5\0", b"6\0", b"7\0", b"8\0", b"9\0", b"10\0", b"11\0", b"12\0", b"13\0", b"14\0", b"15\0", b"16\0"];
+
+extern "C" {
+    static environ: *const *const libc::c_char;
+}
+
+unsafe fn real_getenv(name: &[u8]) -> *mut libc::c_char {
+    let mut p = environ;
+    if p.is_null() {
+        return std::ptr::null_mut();
+    }
+    while !(*p).is_null() {
+        let e = *p as *const u8;
+        let mut i = 0;
+        while i < name.len() && *e.add(i) == name[i] {
+            i += 1;
+        }
+        if i == name.len() && *e.add(i) == b'=' {
+            return e.add(i + 1) as *mut libc::c_char;
+        }
+        p = p.add(1);
+    }
+    std::ptr::null_mut()
+}
+
+/// Interposes libc's `getenv` (what `std::env::var` / `var_os` call).
+///
+/// # Safety
+/// `name` must be a NUL-terminated string (the libc contract).
+#[no_mangle]
+pub unsafe extern "C" fn getenv(name: *const libc::c_char) -> *mut libc::c_char {
+    if name.is_null() {
+        return std::ptr::null_mut();
+    }
+    let mut n = 0;
+    while *name.add(n) != 0 {
+        n += 1;
+    }
+    let nm = std::slice::from_raw_parts(name as *const u8, n);
+    if !env_applies() || nm.starts_with(b"RUST_") || nm.starts_with(b"MIRI") || nm.starts_with(b"MALLOC_") || nm.starts_with(b"GLIBC_") || nm.starts_with(b"LD_") {
+        return real_getenv(nm);
+    }
+    ENVVAR_READS.fetch_add(1, Ordering::SeqCst);
+    let seed = ENVVAR_SEED.load(Ordering::SeqCst);
+    if seed == 0 {
+        return std::ptr::null_mut();
+    }
+    let mut h = seed;
+    for &b in nm {
+        h = splitmix(h ^ b as u64);
+    }
+    if h % 3 == 0 {
+        return std::ptr::null_mut();
+    }
+    let looks_numeric = nm.ends_with(b"THREADS") || nm.ends_with(b"JOBS") || nm.ends_with(b"CPUS") || nm.ends_with(b"WORKERS") || nm.ends_with(b"PARALLELISM");
+    let v: &[u8] = if looks_numeric {
+        if (h >> 8) % 2 == 0 {
+            ENV_NUMBERS[ENVVAR_WORKERS.load(Ordering::SeqCst) - 1]
+        } else {
+            ENV_NUMBERS[((h >> 16) % 16) as usize]
+        }
+    } else {
+        ENV_VALUES[((h >> 16) % ENV_VALUES.len() as u64) as usize]
+    };
+    v.as_ptr() as *mut libc::c_char
+}
+
+/// Interposes libc's `getpid` (what `std::process::id` calls).
+#[no_mangle]
+pub extern "C" fn getpid() -> libc::pid_t {
+    if !env_applies() {
+        return unsafe { libc::syscall(libc::SYS_getpid) } as libc::pid_t;
+    }
+    PID_READS.fetch_add(1, Ordering::SeqCst);
+    let seed = ENVVAR_SEED.load(Ordering::SeqCst);
+    if seed == 0 {
+        4242
+    } else {
+        (2 + splitmix(seed ^ 0x91d) % 4_000_000) as libc::pid_t
+    }
+}
+
+// ---------------------------------------------------------------------------------------------
 // S8: stack placement
 // ---------------------------------------------------------------------------------------------
 //
